@@ -20,7 +20,7 @@ const (
 	MaxLen    = 4096
 	MaxBody   = MaxLen - HeaderLen // 4077
 
-	ASTrans = 23456
+	ASTrans        = 23456
 	CapFourOctetAS = 65
 )
 
